@@ -7,6 +7,7 @@ from vlib import *
 def run_histories(ck, tree, hists, label="hist"):
     runs = []
     hangs = []
+    ck._qs_tree = tree
     t0 = time.time()
     for h in hists:
         work = ck.scratch.sub("qs")
@@ -102,6 +103,21 @@ def history_from_replay(hj):
     return {k: v for k, v in h.items() if v is not None}
 
 
+def confirmed(ck, h, why):
+    """run history h once more and have it judged again: does the monitor raise the same clause?"""
+    tree = getattr(ck, "_qs_tree", None)
+    if tree is None or os.environ.get("VERIF_NO_RERUN"):
+        return True
+    try:
+        again = run_histories(ck, tree, [h])
+        bad2, _ = judge(ck, again)
+    except Infra as e:
+        log("re-run of history %s failed (%s); the objection stands" % (h.get("id"), str(e)[:200]))
+        return True
+    clause = ":".join(why.split(":")[:2])
+    return any(":".join(w.split(":")[:2]) == clause for _, w, _, _ in bad2)
+
+
 def report(ck, prop, runs, bad, accept=None):
     """turn monitor verdicts into VIOLATION / KNOWN-FINDING, only for clauses of this property (or, for histories whose only
     unusual input belongs to this property, for the clause prefixes in `accept`)"""
@@ -121,6 +137,12 @@ def report(ck, prop, runs, bad, accept=None):
         key = "%s:hist=%s" % (why, h.get("id"))
         gen = why
         if gen in seen and len(seen) > 6:
+            continue
+        if ck.kf.match(ck.prop, key) is None and not confirmed(ck, h, why):
+            # an objection is reported only if running the same history again (same seed, hence same schedule and answers)
+            # repeats it: the histories are deterministic, so what does not repeat came from the machine (load, time-outs)
+            ck.cov["objections_not_repeated_when_the_history_was_run_again"] = ck.cov.get("objections_not_repeated_when_the_history_was_run_again", 0) + 1
+            log("NOTE %s: history %s: %s was not repeated when the history was run again; not reported" % (prop, h.get("id"), why))
             continue
         seen.add(gen)
         hj = {"id": h.get("id"), "seed": h.get("seed"), "conc": list(h.get("conc", ())), "announce": list(h.get("announce", ())), "strict": h.get("strict", 0),
